@@ -164,3 +164,10 @@ Theorem C01_east_z_textbook : forall p a b,
   ~ (py p < py a <-> py p < py b) /\ (inject_Z (px p) < abscissa p a b)%Q.
 Proof. exact east_z_textbook. Qed.
 Print Assumptions C01_east_z_textbook.
+
+(* an outline handed over open (first <> last) is closed by the constructor *)
+Theorem C01_pip_norm_open : forall w p h v tl, west_ok w (v :: tl) -> w <= px p ->
+  pt_eqb v (last (v :: tl) v) = false ->
+  (pip w p (norm_outline h (v :: tl)) = true <-> strict_in p (v :: tl)).
+Proof. exact pip_norm_open. Qed.
+Print Assumptions C01_pip_norm_open.
